@@ -170,6 +170,7 @@ def showErr : Err → String
   | .component => "component"
   | .notObject => "not-object"
   | .validation => "validation"
+  | .laxValidation => "validation-lax"
   | .exception e => showXErr e
   | .badTag => "bad-tag"
   | .notModel => "not-model"
